@@ -20,7 +20,7 @@ def run(job):
     from symx.spec import wrapper_source
     hmod = importlib.import_module(job['module'])
     ob = next(o for o in hmod.OBLIGATIONS if o.name == job['obligation'])
-    params = dict(ob.partitions(job['tier']))[job['partition']]
+    params = ob.params_for(job['tier'], job['partition'])
     src, flat = wrapper_source(job['module'], ob, params, job.get('post', '_ > 0'), VERIF)
     ns = {}
     exec(compile(src, '<replay-wrapper>', 'exec'), ns)
